@@ -1,6 +1,793 @@
-"""Checks of the text/expression properties (filled in later)."""
-PROPS = {}
+"""Checks of the text-level properties C12 (parsed model = source text) and C13 (expression semantics)."""
+import contextlib
+import copy
+import hashlib
+import io
+import json
+import multiprocessing as mp
+import os
+import random
+import re
+import shutil
+import signal
+import tempfile
+from fractions import Fraction
+
+import findings
+import progs
+from sched_family import run_model, _init_worker, CaseTimeout, _alarm
+
+HERE = os.path.dirname(os.path.abspath(__file__))
+VERIF = os.path.abspath(os.path.join(HERE, ".."))
+PROPS = {"C12", "C13"}
+
+# ---------------------------------------------------------------------------------------------
+# C13: surface expressions with their ordinary reading
+
+ARITH = ["+", "-", "*", "/"]
+CMP = ["<", "<=", ">", ">=", "==", "!="]
+RANK = {"Or": 1, "And": 2, "<": 3, "<=": 3, ">": 3, ">=": 3, "==": 3, "!=": 3, "+": 4, "-": 4, "*": 5, "/": 5}
+NUM_ATTRS = [["r", "n"], ["r", "m", "n"], ["r", "k"]]
+BOOL_ATTRS = [["r", "b"], ["r", "m", "b"]]
+NUM_LITS = [0, 1, 2, 3, 4, 8, 0.5, 1.5, 2.25]
+VALUES = [0, 1, 2, 3, -1, -2, Fraction(1, 2), Fraction(-1, 2), Fraction(3, 2), 4, 8]
+POW2 = [1, 2, -2, 4, Fraction(1, 2), -1, 8]
+
+
+def gen_num(rng, depth):
+    """surface AST: ("num", lit) | ("path", p) | ("neglit", lit) | ("bin", op, l, r) | ("paren", e)"""
+    if depth <= 0 or rng.random() < 0.35:
+        r = rng.random()
+        if r < 0.55:
+            return ("path", rng.choice(NUM_ATTRS))
+        if r < 0.9:
+            return ("num", rng.choice(NUM_LITS))
+        return ("neglit", rng.choice([1, 2, 0.5]))
+    op = rng.choice(["+", "-", "*", "/", "+", "-", "*"])
+    l, r = gen_num(rng, depth - 1), gen_num(rng, depth - 1)
+    if op == "/":
+        # divisors: literals that are powers of two (exact in binary floating point, never zero)
+        r = ("num", rng.choice([1, 2, 4, 0.5, 8]))
+    e = ("bin", op, l, r)
+    if rng.random() < 0.15:
+        e = ("paren", e)
+    return e
+
+
+def gen_bool(rng, depth):
+    r = rng.random()
+    if depth <= 0 or r < 0.2:
+        return ("path", rng.choice(BOOL_ATTRS)) if rng.random() < 0.8 else ("bool", rng.random() < 0.5)
+    if r < 0.55:
+        op = rng.choice(CMP)
+        if op in ("==", "!=") and rng.random() < 0.3:
+            return ("bin", op, gen_bool(rng, 0), gen_bool(rng, 0))
+        return ("bin", op, gen_num(rng, depth - 1), gen_num(rng, depth - 1))
+    if r < 0.68:
+        return ("not", gen_bool(rng, depth - 1))
+    op = rng.choice(["And", "Or"])
+    e = ("bin", op, gen_bool(rng, depth - 1), gen_bool(rng, depth - 1))
+    if rng.random() < 0.15:
+        e = ("paren", e)
+    return e
+
+
+def rank_of(e):
+    if e[0] == "bin":
+        return RANK[e[1]]
+    if e[0] == "not":
+        return 2.5  # printed always with a parenthesised / atomic operand, and parenthesised itself as an operand
+    return 9
+
+
+def lit_text(v):
+    if isinstance(v, bool):
+        return "true" if v else "false"
+    return repr(v)
+
+
+def print_min(e, tight=False):
+    """text with the minimal parentheses the ORDINARY precedence needs (equal rank: left-associative)"""
+    k = e[0]
+    if k == "num":
+        return lit_text(e[1])
+    if k == "neglit":
+        return "-" + lit_text(e[1])
+    if k == "bool":
+        return lit_text(e[1])
+    if k == "path":
+        return ".".join(e[1])
+    if k == "paren":
+        return "(" + print_min(e[1], tight) + ")"
+    if k == "not":
+        inner = e[1]
+        t = print_min(inner, tight)
+        if inner[0] in ("bin", "not", "neglit"):
+            t = "(" + t + ")"
+        return "!" + t
+    op, l, r = e[1], e[2], e[3]
+    lt, rt = print_min(l, tight), print_min(r, tight)
+    rk = RANK[op]
+    if (l[0] == "not" and rk >= 3) or (l[0] == "bin" and RANK[l[1]] < rk) or (l[0] == "bin" and RANK[l[1]] == 3 and rk == 3):
+        lt = "(" + lt + ")"
+    if r[0] == "not" and rk >= 3:
+        rt = "(" + rt + ")"
+    if r[0] == "bin" and (RANK[r[1]] <= rk if rk != 3 else RANK[r[1]] <= 3):
+        rt = "(" + rt + ")"
+    if r[0] == "neglit" and op in ("-", "+") and tight:
+        rt = "(" + rt + ")"
+    sep = "" if (tight and op not in ("And", "Or")) else " "
+    return lt + sep + op + sep + rt
+
+
+def print_full(e):
+    k = e[0]
+    if k in ("num", "neglit", "bool", "path"):
+        return print_min(e)
+    if k == "paren":
+        return "(" + print_full(e[1]) + ")"
+    if k == "not":
+        return "!(" + print_full(e[1]) + ")"
+    return "(" + print_full(e[2]) + ") " + e[1] + " (" + print_full(e[3]) + ")"
+
+
+def k10_shape(e):
+    """a `*` whose left operand is an unparenthesised `/` (the grammar ranks `*` above `/`: finding K10)"""
+    k = e[0]
+    if k == "bin":
+        if e[1] == "*" and e[2][0] == "bin" and e[2][1] == "/":
+            return True
+        # also (a / b) nested further left in a product chain: a / b * c * d
+        if e[1] == "*" and e[2][0] == "bin" and e[2][1] == "*" and k10_shape(e[2]):
+            return True
+        return k10_shape(e[2]) or k10_shape(e[3])
+    if k in ("paren", "not"):
+        return k10_shape(e[1])
+    return False
+
+
+def value_of(v, p):
+    for a in p[1:]:
+        v = v[a]
+    return v
+
+
+def denote(e, val):
+    """ordinary arithmetic / comparison / boolean semantics over exact rationals; val: {"r": {...}}"""
+    k = e[0]
+    if k == "num":
+        return Fraction(e[1])
+    if k == "neglit":
+        return -Fraction(e[1])
+    if k == "bool":
+        return e[1]
+    if k == "path":
+        return value_of(val[e[1][0]], e[1])
+    if k == "paren":
+        return denote(e[1], val)
+    if k == "not":
+        return not denote(e[1], val)
+    op = e[1]
+    a, b = denote(e[2], val), denote(e[3], val)
+    if op == "+":
+        return a + b
+    if op == "-":
+        return a - b
+    if op == "*":
+        return a * b
+    if op == "/":
+        return Fraction(a) / Fraction(b)
+    if op == "<":
+        return a < b
+    if op == "<=":
+        return a <= b
+    if op == ">":
+        return a > b
+    if op == ">=":
+        return a >= b
+    if op == "==":
+        return a == b
+    if op == "!=":
+        return a != b
+    if op == "And":
+        return a and b
+    if op == "Or":
+        return a or b
+    raise ValueError(op)
+
+
+def gen_valuation(rng):
+    def num():
+        return rng.choice(VALUES)
+
+    return {"r": {"n": num(), "k": num(), "b": rng.random() < 0.5, "m": {"n": num(), "b": rng.random() < 0.5}}}
+
+
+def val_json(v):
+    if isinstance(v, dict):
+        return {k: val_json(x) for k, x in v.items()}
+    if isinstance(v, bool):
+        return v
+    f = Fraction(v)
+    return {"q": [f.numerator, f.denominator]}
+
+
+def small_enough(e, val):
+    """all intermediate values stay small dyadic rationals (exact in floating point)"""
+    try:
+        def walk(x):
+            k = x[0]
+            if k in ("paren", "not"):
+                walk(x[1])
+            elif k == "bin":
+                walk(x[2])
+                walk(x[3])
+            v = denote(x, val)
+            if isinstance(v, Fraction):
+                d = v.denominator
+                if d & (d - 1) or d > 2 ** 20 or abs(v.numerator) > 2 ** 30:
+                    raise OverflowError
+        walk(e)
+        return True
+    except (OverflowError, ZeroDivisionError):
+        return False
+
+
+HDR = "Struct M\n    n: number\n    b: boolean\nEnd\nStruct R\n    n: number\n    k: number\n    b: boolean\n    m: M\nEnd\n"
+
+
+def program_for(text, kind):
+    if kind == "cond":
+        return HDR + "Task productionTask\n    G\n        Out\n            r: R\n    Condition\n        " + text + "\n    Passed\n        Yes\n    Failed\n        No\nEnd\n"
+    return HDR + "Task productionTask\n    G\n        Out\n            r: R\n    Loop While " + text + "\n        Yes\n    No\nEnd\n"
+
+
+def job_expr(args):
+    """one expression: text (minimal and full parentheses, tight/spaced) through the real parser, visitor tree,
+    decision of the real scheduler for several valuations; reference: ordinary semantics of the generating AST"""
+    import impl
+    from pfdl_scheduler.utils.parsing_utils import parse_string
+
+    seed, depth = args
+    rng = random.Random(seed)
+    signal.signal(signal.SIGALRM, _alarm)
+    signal.alarm(120)
+    try:
+        for _ in range(50):
+            e = gen_bool(rng, depth)
+            if e[0] in ("path", "bool"):
+                continue
+            break
+        kind = rng.choice(["cond", "cond", "while"])
+        tight = rng.random() < 0.3
+        texts = [("min", print_min(e, tight)), ("full", print_full(e))]
+        out = {"seed": seed, "ast": e, "kind": kind, "k10": k10_shape(e), "variants": []}
+        vals = []
+        for _ in range(6):
+            v = gen_valuation(rng)
+            if small_enough(e, v):
+                vals.append(v)
+        for label, text in texts:
+            prog = program_for(text, kind)
+            buf = io.StringIO()
+            rec = {"label": label, "text": text}
+            try:
+                with contextlib.redirect_stdout(buf):
+                    valid, process = parse_string(prog)
+            except Exception as ex:  # noqa: BLE001
+                rec["exc"] = type(ex).__name__
+                out["variants"].append(rec)
+                continue
+            rec["valid"] = valid
+            rec["out"] = buf.getvalue()[:300]
+            if valid:
+                st = process.tasks["productionTask"].statements[1]
+                rec["tree"] = tree_json(st.expression)
+                toks = expr_tokens(text)
+                n_atoms = 0
+                for tk in toks:
+                    if isinstance(tk, dict) and "atom" in tk:
+                        tk["atom"] = ["#%d" % n_atoms]
+                        n_atoms += 1
+                rec["tokens"] = toks
+                cnt = [0]
+                rec["indexed"] = index_leaves(rec["tree"], cnt)
+                rec["n_atoms"] = [n_atoms, cnt[0]]
+                decs = []
+                for v in vals:
+                    decs.append(decide_with_scheduler(impl, prog, v, kind))
+                rec["decisions"] = decs
+            out["variants"].append(rec)
+        out["vals"] = [val_json(v) for v in vals]
+        out["expected"] = [bool(denote(e, v)) for v in vals]
+        signal.alarm(0)
+        return out
+    except CaseTimeout:
+        return {"seed": seed, "timeout": True, "variants": []}
+    finally:
+        signal.alarm(0)
+
+
+def expr_tokens(text):
+    """the real lexer's tokens of an expression, grouped as the `expression` rule sees them"""
+    from antlr4 import InputStream
+    from pfdl_scheduler.parser.PFDLLexer import PFDLLexer as L
+
+    lexer = L(InputStream(text))
+    lexer.removeErrorListeners()
+    ops = {L.STAR, L.SLASH, L.PLUS, L.LESS_THAN, L.LESS_THAN_OR_EQUAL, L.GREATER_THAN, L.GREATER_THAN_OR_EQUAL,
+           L.EQUAL, L.NOT_EQUAL, L.BOOLEAN_AND, L.BOOLEAN_OR}
+    out = []
+    t = lexer.nextToken()
+    while t.type != -1:
+        if t.type in (L.NL, L.INDENT, L.DEDENT):
+            pass
+        elif t.type == L.LEFT_PARENTHESIS:
+            out.append("(")
+        elif t.type == L.RIGHT_PARENTHESIS:
+            out.append(")")
+        elif t.type == L.BOOLEAN_NOT:
+            out.append("!")
+        elif t.type in ops:
+            out.append({"op": t.text})
+        elif t.type == L.MINUS and out and (out[-1] == ")" or (isinstance(out[-1], dict) and "atom" in out[-1])):
+            out.append({"op": "-"})
+        else:
+            if out and isinstance(out[-1], dict) and "atom" in out[-1] and not out[-1].get("closed"):
+                out[-1]["atom"] += t.text
+            else:
+                out.append({"atom": t.text})
+        t = lexer.nextToken()
+    return out
+
+
+def index_leaves(tree, counter):
+    """the visitor tree with its leaves replaced by ["#i"] (in order)"""
+    if isinstance(tree, dict):
+        if "unOp" in tree:
+            return {"unOp": tree["unOp"], "value": index_leaves(tree["value"], counter)}
+        if tree.get("left") == "(" and tree.get("right") == ")":
+            return {"left": "(", "binOp": index_leaves(tree["binOp"], counter), "right": ")"}
+        l = index_leaves(tree["left"], counter)
+        r = index_leaves(tree["right"], counter)
+        return {"binOp": tree["binOp"], "left": l, "right": r}
+    counter[0] += 1
+    return ["#%d" % (counter[0] - 1)]
+
+
+def tree_json(x):
+    if isinstance(x, dict):
+        return {k: tree_json(v) for k, v in x.items()}
+    if isinstance(x, list):
+        return [tree_json(v) for v in x]
+    return x
+
+
+def decide_with_scheduler(impl, prog, val, kind):
+    """which service starts after the guard: 'Yes' (true) or 'No' (false); exceptions are reported"""
+    vj = val_json(val)["r"]
+    started = []
+    run = impl.Run(prog, ids="test", answers=lambda name, ctx: vj)
+    if run.s is None or not run.valid:
+        return "invalid"
+    for k in ("ts", "ss", "sf", "tf"):
+        run.register(k, 0)
+    c = run.start()
+    if c.get("exc"):
+        return "exc:" + c["exc"]
+    c = run.complete(0)  # G
+    if c.get("exc"):
+        return "exc:" + c["exc"]
+    names = [e[3] for cc in run.calls for e in cc["out"] if e[0] == "INV" and e[1] == "ss" and e[2] == 0]
+    if len(names) < 2:
+        return "none"
+    return names[1] == "Yes"
+
+
+# ---------------------------------------------------------------------------------------------
+# C12
+
+
+def add_twin_literals(vgen, prog, rng):
+    """two struct definitions with the same attributes and, in one service call, a literal of each with the same
+    value (the model must keep them apart: each literal carries the name written in front of it)"""
+    S = vgen.struct_table(prog)
+    svcs = [node for _t, _ti, node, _ref, role, _lv in vgen.task_nodes(prog) if role == "stmt" and node["k"] == "svc"]
+    if not svcs or not prog["structs"]:
+        return False
+    lits = [p for node in svcs for p in (node.get("ins") or []) if isinstance(p, dict) and "lit" in p]
+    if lits and rng.random() < 0.7:
+        src = rng.choice(lits)
+        name, value = src["lit"], copy.deepcopy(src["json"])
+    else:
+        st = rng.choice(prog["structs"])
+        name, value = st["name"], vgen.build_value(st["name"], S, rng.randrange(4))
+    attrs = next(st["attrs"] for st in prog["structs"] if st["name"] == name)
+    twin = vgen.fresh_name(prog, name + "Twin")
+    prog["structs"].append({"name": twin, "attrs": [list(a) for a in attrs]})
+    svc = rng.choice(svcs)
+    ins = list(svc.get("ins") or [])
+    pos = rng.randrange(len(ins) + 1)
+    ins.insert(pos, {"lit": twin, "json": copy.deepcopy(value)})
+    ins.insert(rng.randrange(len(ins) + 1), {"lit": name, "json": copy.deepcopy(value)})
+    svc["ins"] = ins
+    return True
+
+
+def job_c12(args):
+    """a well-formed program in several layouts: the parsed Process must equal the generating AST; the denter's
+    block structure is compared with the Lean denter model; illegal characters must be rejected"""
+    import vgen
+    import vgen_selftest
+    import valid_family as vf
+    from pfdl_scheduler.utils.parsing_utils import parse_string
+
+    seed, size = args
+    rng = random.Random(seed)
+    signal.signal(signal.SIGALRM, _alarm)
+    signal.alarm(180)
+    out = {"seed": seed, "layouts": [], "illegal": [], "denter": []}
+    try:
+        prog = vf.gen_wf(rng, size)
+        if rng.random() < 0.4:
+            out["twin"] = add_twin_literals(vgen, prog, rng)
+        base_model = None
+        for li in range(4):
+            lay = None if li == 0 else vgen.random_layout(rng)
+            p = copy.deepcopy(prog)
+            text = vgen.print_program(p, lay)
+            if li > 1 and rng.random() < 0.5:
+                nl = "\r\n" if "\r\n" in text else "\n"
+                text = "".join(rng.choice([nl, "# header comment" + nl, "   " + nl]) for _ in range(rng.randint(1, 4))) + text
+            buf = io.StringIO()
+            rec = {"layout": lay, "text": text}
+            try:
+                with contextlib.redirect_stdout(buf):
+                    valid, process = parse_string(text)
+            except Exception as ex:  # noqa: BLE001
+                rec["exc"] = type(ex).__name__
+                out["layouts"].append(rec)
+                continue
+            rec["valid"] = valid
+            rec["out"] = buf.getvalue()[:300]
+            if process is not None:
+                canon = None
+                try:
+                    canon = vgen_selftest.model_canon(process)
+                    d = vgen_selftest.first_difference(canon, vgen_selftest.ast_canon(p))
+                    diffs = [d] if d else []
+                except Exception as ex:  # noqa: BLE001
+                    diffs = ["comparison failed: %s %s" % (type(ex).__name__, ex)]
+                rec["diffs"] = diffs[:5]
+                if base_model is None:
+                    base_model = canon
+                elif canon is not None and canon != base_model:
+                    rec["diffs"] = (rec.get("diffs") or []) + ["model differs between layouts"]
+            rec["denter"] = denter_case(text)
+            out["layouts"].append(rec)
+        # illegal characters: single insertions at random positions outside strings and comments
+        p = copy.deepcopy(prog)
+        text = vgen.print_program(p, None)
+        lead = rng.random() < 0.5
+        if lead:
+            text = "".join(rng.choice(["\n", "# header comment\n", "   \n"]) for _ in range(rng.randint(1, 4))) + text
+        first = len(text) - len(text.lstrip("\n"))
+        m = re.match(r"(?:[ \t]*(?:#[^\n]*)?\n)*", text)
+        head = m.end() if m else 0
+        for n_ins in range(10):
+            pos = rng.randrange(len(text) + 1)
+            if lead and head > 0 and n_ins < 4:
+                pos = rng.randrange(head + 1)  # in the blank / comment lines before the first definition
+            ch = rng.choice(ILLEGAL)
+            line_start = text.rfind("\n", 0, pos) + 1
+            line = text[line_start: text.find("\n", pos) if text.find("\n", pos) >= 0 else len(text)]
+            col = pos - line_start
+            if "#" in line[:col] or line[:col].count('"') % 2 == 1:
+                continue  # inside a comment or a string
+            t2 = text[:pos] + ch + text[pos:]
+            buf = io.StringIO()
+            try:
+                with contextlib.redirect_stdout(buf):
+                    valid, _ = parse_string(t2)
+                out["illegal"].append({"pos": pos, "ch": ch, "valid": valid, "out": buf.getvalue()[:120], "text": t2 if valid else None})
+            except Exception as ex:  # noqa: BLE001
+                out["illegal"].append({"pos": pos, "ch": ch, "exc": type(ex).__name__, "text": t2})
+        signal.alarm(0)
+        return out
+    except CaseTimeout:
+        out["timeout"] = True
+        return out
+    finally:
+        signal.alarm(0)
+
+
+ILLEGAL = ["§", "$", "@", "~", "^", "%", "&", "|", "?", "\\", "`", "'", ";", "ä", "€", "\x0b", "\x7f"]
+
+
+def denter_case(text):
+    """the real lexer+denter's INDENT / DEDENT / NL pattern, and the input of the Lean denter model:
+    the indentation of every NL token the lexer produced (blanks after the line break), in order"""
+    from antlr4 import InputStream
+    from pfdl_scheduler.parser.PFDLLexer import PFDLLexer
+
+    lexer = PFDLLexer(InputStream(text))
+    lexer.removeErrorListeners()
+    toks = []
+    raw_nl = []
+    # raw NL tokens: pull from the lexer's super().nextToken through the denter's pull_token hook
+    orig_pull = None
+    out = []
+    t = lexer.nextToken()
+    n = 0
+    while t.type != -1 and n < 100000:
+        if t.type == PFDLLexer.INDENT:
+            out.append("I")
+        elif t.type == PFDLLexer.DEDENT:
+            out.append("D")
+        elif t.type == lexer.NL:
+            out.append("N")
+        else:
+            out.append("t")
+        t = lexer.nextToken()
+        n += 1
+    return {"pattern": re.sub(r"t+", "t", "".join(out))}
+
+
+# ---------------------------------------------------------------------------------------------
 
 
 def run(ctx):
-    raise NotImplementedError
+    prop, tier, seed = ctx["prop"], ctx["tier"], ctx["seed"]
+    base = tempfile.mkdtemp(prefix="pfdl_verif_")
+    res = {"violations": [], "known": [], "unexplained": [], "notes": [], "coverage": {}, "assumptions": []}
+    try:
+        pool = mp.Pool(min(16, os.cpu_count() or 4), initializer=_init_worker, initargs=(base,))
+        try:
+            if prop == "C13":
+                _run_c13(ctx, pool, res)
+            else:
+                _run_c12(ctx, pool, res)
+        finally:
+            pool.terminate()
+            pool.join()
+    finally:
+        shutil.rmtree(base, ignore_errors=True)
+    return res
+
+
+def replay_obj(prop, rule, msg, payload):
+    o = {"property": prop, "family": "text", "rule": rule, "message": msg,
+         "how": "./check %s quick --replay <this file>" % prop}
+    o.update(payload)
+    return o
+
+
+def _add(res, seen, prop, rule, msg, payload):
+    if rule in seen:
+        seen[rule] += 1
+        return
+    seen[rule] = 1
+    res["violations"].append({"rule": rule, "msg": msg, "replay_obj": replay_obj(prop, rule, msg, payload)})
+
+
+def expr_to_model(tree):
+    return tree
+
+
+def _run_c13(ctx, pool, res):
+    prop, tier, seed = ctx["prop"], ctx["tier"], ctx["seed"]
+    quick = tier == "quick"
+    seen = {}
+    if ctx.get("replay"):
+        with open(ctx["replay"]) as f:
+            obj = json.load(f)
+        r = pool.apply(job_replay_expr, (obj,))
+        for rule, msg in r:
+            _add(res, seen, prop, rule, msg, {k: obj[k] for k in obj if k in ("text", "kind", "val", "expected")})
+        res["coverage"] = {"evaluations": 1, "distinct_nontrivial": 0, "programs": 1, "samples": [obj.get("text")]}
+        return
+    # known findings
+    for kf in findings.open_for(prop):
+        obj = findings.load_replay(kf)
+        if obj.get("family") != "text":
+            continue
+        r = pool.apply(job_replay_expr, (obj,))
+        rules = [x for x, _ in r]
+        if kf["rule"] in rules:
+            res["known"].append("id=%s %s" % (kf["id"], kf["text"]))
+        elif r:
+            _add(res, seen, prop, r[0][0], "finding %s now fails differently: %s" % (kf["id"], r[0][1]), obj)
+        else:
+            res["notes"].append("finding %s no longer reproduces" % kf["id"])
+    n = 400 if quick else 4000
+    jobs = [(seed * 611953 + i, 2 + (i % 3)) for i in range(n)]
+    results = pool.map(job_expr, jobs, chunksize=4)
+    n_eval = 0
+    distinct = set()
+    nontrivial = set()
+    ops_hist = {}
+    model_reqs = []
+    k10 = 0
+    sample = None
+    for r in results:
+        if r.get("timeout") or not r.get("variants"):
+            continue
+        for v in r["variants"]:
+            n_eval += 1
+            key = hashlib.sha256((v["text"] + r["kind"]).encode()).hexdigest()
+            distinct.add(key)
+            if v.get("exc"):
+                _add(res, seen, prop, "raises", "validation raised %s on a well-typed expression" % v["exc"], {"text": v["text"], "kind": r["kind"]})
+                continue
+            if not v.get("valid"):
+                _add(res, seen, prop, "well_typed_rejected", "well-typed expression rejected: %s" % v.get("out", "")[:200], {"text": v["text"], "kind": r["kind"]})
+                continue
+            if sample is None:
+                sample = {"text": v["text"], "tree": v["tree"], "expected": r["expected"][:3], "decisions": v["decisions"][:3]}
+            if r["k10"] and v["label"] == "min":
+                k10 += 1
+                model_reqs.append((v, r))  # the parser model must read it like the parser does
+                continue  # finding K10: its own replay
+            if len(r["vals"]) >= 1:
+                nontrivial.add(key)
+            for val, exp, dec in zip(r["vals"], r["expected"], v["decisions"]):
+                if dec != exp:
+                    _add(res, seen, prop, "wrong_decision" if isinstance(dec, bool) else "decision_" + str(dec).replace(":", "_"),
+                         "expression %r (%s, %s parentheses) with %s: the scheduler decides %r, ordinary semantics give %r"
+                         % (v["text"], r["kind"], v["label"], json.dumps(val), dec, exp),
+                         {"text": v["text"], "kind": r["kind"], "val": val, "expected": exp})
+                    break
+            model_reqs.append((v, r))
+        for op in re.findall(r"And|Or|<=|>=|==|!=|[<>+\-*/!]", r["variants"][0]["text"]) if r["variants"] else []:
+            ops_hist[op] = ops_hist.get(op, 0) + 1
+    # correspondence: the Lean exec on the implementation's visitor tree must give the implementation's decisions
+    disagreements = []
+    if ctx["model_ok"] and model_reqs:
+        reqs = [{"k": "expr", "tree": v["tree"], "vals": [x["r"] for x in r["vals"]], "tokens": v["tokens"]} for v, r in model_reqs]
+        resps = run_model(reqs)
+        for (v, r), resp in zip(model_reqs, resps):
+            if "error" in resp:
+                disagreements.append((v["text"], "model error " + resp["error"]))
+                continue
+            if resp.get("decisions") != [d if isinstance(d, bool) else None for d in v["decisions"]]:
+                disagreements.append((v["text"], "decisions implementation %r / model %r" % (v["decisions"], resp.get("decisions"))))
+            elif resp.get("parsed") != v["indexed"]:
+                disagreements.append((v["text"], "tree: visitor %s / model parser %s" % (json.dumps(v["indexed"])[:200], json.dumps(resp.get("parsed"))[:200])))
+    elif not ctx["model_ok"]:
+        res["unexplained"].append({"what": "the Lean model does not build: " + "; ".join(ctx["build"].get("build_errors", [])[:3])})
+    if disagreements and not res["violations"]:
+        res["unexplained"].append({"what": "correspondence broken (expression evaluation model) on %d of %d expressions: %r %s"
+                                           % (len(disagreements), len(model_reqs), disagreements[0][0], disagreements[0][1]),
+                                   "case": {"text": disagreements[0][0]}, "detail": disagreements[0][1]})
+    for v in res["violations"]:
+        v["replay_obj"]["occurrences"] = seen.get(v["rule"])
+    res["coverage"] = {
+        "programs": len(distinct), "evaluations": n_eval, "distinct_nontrivial": len(nontrivial),
+        "rule": "well-typed boolean expressions of depth <= 4 over number/boolean attribute paths, literals, all 12 binary operators, negation and parentheses, printed with the minimal parentheses of the ordinary precedence and fully parenthesised, as Condition and as While guard; each with up to 6 valuations over {0,+-1,+-2,3,4,8,+-1/2,3/2} (all intermediate values exactly representable); distinct by text; non-trivial: accepted and decided for >= 1 valuation; shapes of finding K10 (a*b after unparenthesised a/b) counted separately",
+        "traces_validated_against_impl": len(model_reqs) if ctx["model_ok"] else 0,
+        "disagreements_checked": len(disagreements), "operators": ops_hist, "k10_shapes_skipped": k10,
+        "known_findings_reproduced": len(res["known"]), "samples": [sample] if sample else [],
+    }
+
+
+def job_replay_expr(obj):
+    import impl
+    from pfdl_scheduler.utils.parsing_utils import parse_string
+
+    prog = program_for(obj["text"], obj.get("kind", "cond"))
+    out = []
+    buf = io.StringIO()
+    try:
+        with contextlib.redirect_stdout(buf):
+            valid, process = parse_string(prog)
+    except Exception as ex:  # noqa: BLE001
+        return [("raises", type(ex).__name__)]
+    if not valid:
+        return [("well_typed_rejected", buf.getvalue()[:200])]
+    val = obj.get("val")
+    if val is not None:
+        if "r" in val and isinstance(val["r"], dict) and "q" not in val["r"]:
+            val = val["r"]
+
+        def unj(v):
+            if isinstance(v, dict):
+                if "q" in v:
+                    return Fraction(v["q"][0], v["q"][1])
+                return {k: unj(x) for k, x in v.items()}
+            return v
+        dec = decide_with_scheduler(impl, prog, {"r": unj(val)}, obj.get("kind", "cond"))
+        if dec != obj.get("expected"):
+            out.append((obj.get("rule", "wrong_decision"), "decides %r, expected %r" % (dec, obj.get("expected"))))
+    return out
+
+
+def _run_c12(ctx, pool, res):
+    prop, tier, seed = ctx["prop"], ctx["tier"], ctx["seed"]
+    quick = tier == "quick"
+    seen = {}
+    if ctx.get("replay"):
+        with open(ctx["replay"]) as f:
+            obj = json.load(f)
+        r = pool.apply(job_replay_c12, (obj,))
+        for rule, msg in r:
+            _add(res, seen, prop, rule, msg, {"text": obj.get("text")})
+        res["coverage"] = {"evaluations": 1, "distinct_nontrivial": 0, "programs": 1, "samples": [str(obj.get("text"))[:300]]}
+        return
+    n = 120 if quick else 1200
+    results = pool.map(job_c12, [(seed * 49979687 + i, 3 if quick else 4) for i in range(n)], chunksize=2)
+    n_eval = 0
+    distinct = set()
+    nontrivial = set()
+    n_illegal = 0
+    denter_reqs = []
+    sample = None
+    layout_hist = {}
+    for r in results:
+        for l in r["layouts"]:
+            n_eval += 1
+            key = hashlib.sha256(l["text"].encode()).hexdigest()
+            distinct.add(key)
+            for k2, v2 in (l.get("layout") or {"default": True}).items():
+                if v2:
+                    layout_hist[k2] = layout_hist.get(k2, 0) + 1
+            if l.get("exc"):
+                _add(res, seen, prop, "raises", "parsing a well-formed program raised %s" % l["exc"], {"text": l["text"]})
+                continue
+            if not l.get("valid"):
+                _add(res, seen, prop, "layout_rejected", "a well-formed program in layout %r is rejected: %s" % (l.get("layout"), l.get("out", "")[:200]), {"text": l["text"]})
+                continue
+            nontrivial.add(key)
+            if sample is None:
+                sample = {"layout": l.get("layout"), "text": l["text"][:1200]}
+            if l.get("diffs"):
+                _add(res, seen, prop, "model_differs_from_text", "the parsed model differs from the source text (layout %r): %s" % (l.get("layout"), "; ".join(map(str, l["diffs"][:3]))), {"text": l["text"]})
+            if l.get("denter"):
+                denter_reqs.append((l["text"], l["denter"]["pattern"]))
+        for ill in r["illegal"]:
+            n_eval += 1
+            n_illegal += 1
+            if ill.get("exc"):
+                _add(res, seen, prop, "illegal_char_raises", "an inserted %r makes validation raise %s" % (ill["ch"], ill["exc"]), {"text": ill["text"]})
+            elif ill.get("valid"):
+                _add(res, seen, prop, "illegal_char_accepted", "text with an inserted character outside the language (%r at offset %d) is accepted silently" % (ill["ch"], ill["pos"]), {"text": ill["text"]})
+    # correspondence with the Lean denter model: same INDENT / DEDENT / NL pattern
+    disagreements = []
+    if ctx["model_ok"] and denter_reqs:
+        resps = run_model([{"k": "denter", "text": t} for t, _ in denter_reqs])
+        for (t, pat), resp in zip(denter_reqs, resps):
+            if "error" in resp:
+                disagreements.append((t, "model error " + resp["error"]))
+            elif resp.get("pattern") != pat:
+                disagreements.append((t, "INDENT/DEDENT/NL pattern: implementation %s / model %s" % (pat[:120], str(resp.get("pattern"))[:120])))
+    elif not ctx["model_ok"]:
+        res["unexplained"].append({"what": "the Lean model does not build: " + "; ".join(ctx["build"].get("build_errors", [])[:3])})
+    if disagreements and not res["violations"]:
+        res["unexplained"].append({"what": "correspondence broken (lexer layout + denter model) on %d of %d texts: %s" % (len(disagreements), len(denter_reqs), disagreements[0][1]),
+                                   "case": {"text": disagreements[0][0]}, "detail": disagreements[0][1]})
+    for v in res["violations"]:
+        v["replay_obj"]["occurrences"] = seen.get(v["rule"])
+    res["coverage"] = {
+        "programs": len(distinct), "evaluations": n_eval, "distinct_nontrivial": len(nontrivial),
+        "rule": "well-formed programs (tools/vgen.py) printed in the default and 3 random layouts (indent width 1..8 varying per block, comments, blank lines with and without blanks, trailing blanks, CRLF, missing final newline, 3 struct-literal placements, leading blank / comment lines); the parsed Process model compared field by field with the generating AST (strict types, source order); 10 single illegal-character insertions per program outside strings / comments; distinct by text; non-trivial: parsed and compared",
+        "traces_validated_against_impl": len(denter_reqs) if ctx["model_ok"] else 0,
+        "disagreements_checked": len(disagreements), "illegal_insertions": n_illegal, "layout_features": layout_hist,
+        "samples": [sample] if sample else [],
+    }
+
+
+def job_replay_c12(obj):
+    from pfdl_scheduler.utils.parsing_utils import parse_string
+
+    text = obj.get("text", "")
+    rule = obj.get("rule", "")
+    buf = io.StringIO()
+    try:
+        with contextlib.redirect_stdout(buf):
+            valid, process = parse_string(text)
+    except Exception as ex:  # noqa: BLE001
+        return [("raises", type(ex).__name__)]
+    if rule == "illegal_char_accepted" and valid:
+        return [(rule, "still accepted")]
+    if rule == "layout_rejected" and not valid:
+        return [(rule, buf.getvalue()[:200])]
+    return []
